@@ -138,13 +138,16 @@ func CheckHistory(h History) *kit.Violation {
 				cur, ctCached, ctMT, ctCS = nr, true, mt, cs
 			}
 
-		case "ResponseFormat", "ResponseFormatOther", "ResponseFormatParams":
+		case "ResponseFormat", "ResponseFormatOther", "ResponseFormatParams", "ResponseFormatNone":
 			if v := ensureRoute(); v != nil {
 				return v
 			}
 			offers := route.Produces
 			if op == "ResponseFormatOther" {
 				offers = []string{"text/other"}
+			}
+			if op == "ResponseFormatNone" {
+				offers = nil // an asker with no offers of its own (an operation without produces): what was negotiated stands (r9)
 			}
 			if op == "ResponseFormatParams" {
 				// the same offers, spelled with a parameter: what was negotiated first is what every later asker gets
@@ -344,7 +347,7 @@ func (r *bytesReader) Read(p []byte) (int, error) {
 	return n, nil
 }
 
-var histOps = []string{"RouteInfo", "ContentType", "ContentType", "ResponseFormat", "ResponseFormatOther", "Authorize", "Authorize", "BindAndValidate", "BindAndValidate", "ResetAuth", "SwapCT", "ResponseFormatParams", "BindAndValidateFresh", "ResetAuthDiscard"}
+var histOps = []string{"RouteInfo", "ContentType", "ContentType", "ResponseFormat", "ResponseFormatOther", "Authorize", "Authorize", "BindAndValidate", "BindAndValidate", "ResetAuth", "SwapCT", "ResponseFormatParams", "BindAndValidateFresh", "ResetAuthDiscard", "ResponseFormatNone"}
 
 func GenHistory(t *rapid.T) History {
 	h := History{Req: oneDamage(genReq(t))}
